@@ -146,6 +146,26 @@ Theorem C03_text_lenient_nonvacuous :
     Forall advisory w1 /\ Forall advisory w2.
 Proof. exact len_converges_thm. Qed.
 
+(* ---- OPTIONAL QUOTES AROUND PLAIN WORDS CONVERGE (parser half, every depth) -------------------------------------------------
+   In the core3 shapes every string site carries its own spelling choice (quoted STRING token, bare IDENTIFIER, $VARIABLE),
+   given by arbitrary oracles qa (assignment / META sites, per key and string) and qi (list items); the only requirement is
+   that a bare spelling is a word without annotation syntax.  Two token lists that spell the same core3 document with two
+   different choices at any subset of sites are read as the same document. *)
+From OV Require Rt.BareWordParse Rt.QuoteConverge.
+Theorem C03_optional_quotes_converge :
+  forall numcanon holo_ok strict sp alpha ml idnum
+         (qa1 qa2 : str -> str -> BareWordParse.strk) (qi1 qi2 : str -> BareWordParse.strk),
+    (forall k s, qa1 k s = BareWordParse.QIdent -> has_annotation s = false) -> (forall s, qi1 s = BareWordParse.QIdent -> has_annotation s = false) ->
+    (forall k s, qa2 k s = BareWordParse.QIdent -> has_annotation s = false) -> (forall s, qi2 s = BareWordParse.QIdent -> has_annotation s = false) ->
+    forall d, BareWordParse.core3_doc d = true -> nums_ok2_l numcanon idnum (dsections d) -> Forall (field_num_ok numcanon) (dmeta d) ->
+    forall st1 ts1 tail1 st2 ts2 tail2,
+      tail1 <> [] -> pbdepth st1 = 0%N -> Forall2 tmatch ts1 (BareWordParse.doc3_sh ml idnum qa1 qi1 d) -> ptoks st1 = ts1 ++ tail1 ->
+      tail2 <> [] -> pbdepth st2 = 0%N -> Forall2 tmatch ts2 (BareWordParse.doc3_sh ml idnum qa2 qi2 d) -> ptoks st2 = ts2 ++ tail2 ->
+      exists st1' st2',
+        parse_document numcanon holo_ok strict sp alpha st1 = POk d st1' /\
+        parse_document numcanon holo_ok strict sp alpha st2 = POk d st2'.
+Proof. exact QuoteConverge.optional_quotes_converge. Qed.
+
 (* ---- source-text pins (generated by harness/pinsets.py) ---- *)
 (* every function of these modules is, text for text (comments and docstrings excluded), the one the models of this
    property were written against and validated against: harness/translate/srcdigest_t.py, Src/Pin_*.v *)
